@@ -137,6 +137,7 @@ PROPS = {
             E("h26", "c02", "TestC02_Exhaustive", (8, 500), (16, 10000)),
             R("h26", "c02", "TestC02_Concurrent", (600, 4, 600), (60000, 16, 10000)),
             E("h26", "c02", "TestC02_Sizes", (8, 900), (16, 10000)),
+            R("h26", "c02", "TestC02_Mislabel", (400, 4, 400), (40000, 16, 10000)),
         ],
     },
     "C04": {
